@@ -207,6 +207,10 @@ def _predict(case, ctx, op, model, names, ref):
     rows = [r for r in rows if ref.prob_evidence(dict(zip(cols, r))) > 1e-12]
     if not cols or not missing or not rows:
         return
+    if any(names.S(v, s_) is None for v in range(world["n"]) for s_ in range(world["card"][v])):
+        # a state named None cannot be told from a missing cell inside a pandas frame: outside the property
+        ctx.probe("predict_skipped_none_state_in_frame")
+        return
     data = {}
     for j, v in enumerate(cols):
         vals = [names.S(v, r[j]) for r in rows]
